@@ -1,5 +1,5 @@
 (* Proofs about model/BlockCfg.v (property C15). *)
-From Coq Require Import ZArith List Bool Lia.
+From Coq Require Import ZArith List Bool Lia String.
 From VV Require Import lib.PyInt gen.GenArchTables gen.GenBlockCfg model.BlockCfg.
 Import ListNotations.
 Open Scope Z_scope.
@@ -600,4 +600,209 @@ Proof.
     eapply cfg_ok_valid; try eassumption.
     unfold cfg_ok. cbn [c_ofm_block c_layout c_ifm_block].
     destruct (mk_ctx_inv _ _ _ _ _ _ _ _ _ _ _ _ Ex) as [Xa _]. rewrite Xa. auto.
+Qed.
+
+(* ================= offered => accepted ================= *)
+(* api.npu_find_block_configs passes scaled = has_scaling (every feature map has a quantization object), the
+   command stream generator passes scaled = all_fms_have_quant (... and its scale_f32 is not None):
+   generator's flag implies the API's.  scaled only selects the accumulator type (40 bit instead of 32 bit for
+   16-bit non-pooling operations), so acceptance needs: a 32-bit accumulator block never needs more banks
+   than the 40-bit one. *)
+Definition scaling_agnostic (a : arch_row) : Prop :=
+  forall E, 0 <= E ->
+    banks_for (shram_of a) (E * bits_Acc32 / 8) (ar_gran_acc32 a) <= banks_for (shram_of a) (E * bits_Acc40 / 8) (ar_gran_acc40 a).
+
+Ltac agnostic_row :=
+  intros E HE; unfold banks_for, round_up, round_up_divide, shram_of, bits_Acc32, bits_Acc40;
+  cbn [s_bank_size_bytes ar_bank_size_bytes ar_gran_acc32 ar_gran_acc40];
+  replace (E * 32 / 8) with (E * 4) by (replace (E * 32) with (E * 4 * 8) by lia; rewrite Z.div_mul; lia);
+  replace (E * 40 / 8) with (E * 5) by (replace (E * 40) with (E * 5 * 8) by lia; rewrite Z.div_mul; lia);
+  Z.div_mod_to_equations; lia.
+
+Lemma scaling_agnostic_rows_lemma :
+  Forall2 (fun a ok => if ok : bool then scaling_agnostic a else ~ scaling_agnostic a) arch_table
+          [true; true; false; true; true; true].
+Proof.
+  unfold arch_table. repeat constructor.
+  - agnostic_row.
+  - agnostic_row.
+  - intros H. specialize (H 1032 ltac:(lia)). vm_compute in H. apply H. reflexivity.
+  - agnostic_row.
+  - agnostic_row.
+  - agnostic_row.
+Qed.
+
+Lemma acc_bits_of_pos t : 0 < acc_bits_of t.
+Proof. unfold acc_bits_of. destruct (t =? SHRAM_Acc40); [|destruct (t =? SHRAM_Acc16)]; reflexivity. Qed.
+
+Lemma try_asserts_acc bits ig ab ag ab' ag' :
+  try_asserts bits ig ab ag = true -> 0 < ab' -> 0 < ag' -> try_asserts bits ig ab' ag' = true.
+Proof.
+  unfold try_asserts. rewrite !andb_true_iff. intros [_ H] H1 H2. split; [|exact H].
+  split; apply Z.gtb_lt; assumption.
+Qed.
+
+(* the layout depends on `scaled` only through the accumulator type, and only for non-elementwise operations *)
+Lemma try_layout_acc_mono s ew ofm ifm bits ig ab ag ab' ag' lut l :
+  try_layout s ew ofm ifm bits ig ab ag lut = Some l -> 0 < ab' -> 0 < ag' ->
+  banks_for s (acc_bytes_of ofm ab') ag' <= banks_for s (acc_bytes_of ofm ab) ag ->
+  exists l', try_layout s ew ofm ifm bits ig ab' ag' lut = Some l'.
+Proof.
+  unfold try_layout. intros H Hab Hag Hle.
+  destruct (try_asserts bits ig ab ag) eqn:Ha; [|discriminate].
+  rewrite (try_asserts_acc _ _ _ _ ab' ag' Ha Hab Hag). cbv zeta in *.
+  destruct (ew =? EW_No).
+  - destruct (Z.gtb_spec (s_reserved_output_banks s + banks_for s (ifm_bytes_of ifm bits) ig)
+                (s_total_banks s - lut - banks_for s (acc_bytes_of ofm ab) ag)); [discriminate|].
+    destruct (Z.gtb_spec (s_reserved_output_banks s + banks_for s (ifm_bytes_of ifm bits) ig)
+                (s_total_banks s - lut - banks_for s (acc_bytes_of ofm ab') ag')); [lia|].
+    eexists. reflexivity.
+  - destruct (_ >? _); [discriminate|]. eexists. reflexivity.
+Qed.
+
+Lemma ew_usage_elementwise us : ew_usage BT_ElementWise us =? EW_No = false.
+Proof. destruct us; reflexivity. Qed.
+
+Lemma offered_is_accepted_lemma a blk bt ofm ifm ifm2 ifm2' us bits pk k lut rs (s s' : bool) cf :
+  In a arch_table -> scaling_agnostic a ->
+  (ifm2' = ifm2 \/ bt = BT_ElementWise) -> (s' = true -> s = true) ->
+  try_block_config a blk bt ofm ifm ifm2 us bits pk k lut s rs = Some (Some cf) ->
+  exists cf', try_block_config a blk bt ofm ifm ifm2' us bits pk k lut s' rs = Some (Some cf').
+Proof.
+  intros Hin Hag Hifm Hs. apply arch_table_wf in Hin.
+  destruct blk as [bw bh bd]. unfold try_block_config, mk_ctx. cbv zeta.
+  destruct (block_valid a _) eqn:Hv; cbn [negb]; [|discriminate].
+  destruct (ifm_granule_of a (ew_usage bt us) bits) as [ig|]; [|discriminate].
+  destruct (_ || _); [discriminate|].
+  unfold cand_layout, cand_fit_block, cand_ifm_block.
+  cbn [x_arch x_ofm x_ifm x_ifm_bits x_kernel x_ew x_ifm_granule x_acc_bits x_acc_granule x_lut_banks x_upscale x_nearest
+       x_ifm_blockdepth x_equal_depth b_w b_h b_d sh_h shape_of_block].
+  (* the IFM block does not depend on which ifm2 is passed *)
+  match goal with |- context [if ?c then ?ibx else {| b_w := _; b_h := _; b_d := ifm_blockdepth ?u ?dx _ _ |}] =>
+    set (eqd := c); set (ib := ibx); set (d1 := dx) end.
+  match goal with |- context [ifm_blockdepth _ (sh_d ?e) _ _] => set (d2 := sh_d e) end.
+  assert (Hib : (if eqd then ib else {| b_w := b_w ib; b_h := b_h ib; b_d := ifm_blockdepth (ar_ifm_ublock_d a) d2 bits pk |})
+              = (if eqd then ib else {| b_w := b_w ib; b_h := b_h ib; b_d := ifm_blockdepth (ar_ifm_ublock_d a) d1 bits pk |})).
+  { destruct Hifm as [->| ->]; [reflexivity|]. subst eqd. rewrite ew_usage_elementwise. reflexivity. }
+  rewrite Hib. clear Hib.
+  set (IB := if eqd then ib else _).
+  set (FB := fit_block_for_ofm a (b_h ofm) k {| b_w := bw; b_h := bh; b_d := bd |}).
+  destruct (try_asserts bits ig (acc_bits_of (acc_type bt bits s)) (acc_granule_of a (acc_type bt bits s))) eqn:Ha;
+    cbn [negb]; [|discriminate].
+  destruct (try_layout (shram_of a) (ew_usage bt us) FB IB bits ig (acc_bits_of (acc_type bt bits s))
+              (acc_granule_of a (acc_type bt bits s)) (Z.max lut (ar_reserved_end_banks a))) as [l|] eqn:El; [|discriminate].
+  intros _.
+  rewrite (try_asserts_acc _ _ _ _ (acc_bits_of (acc_type bt bits s')) (acc_granule_of a (acc_type bt bits s')) Ha
+             (acc_bits_of_pos _) (acc_granule_of_pos _ _ Hin)). cbn [negb].
+  destruct (try_layout_acc_mono _ _ _ _ _ _ _ _ (acc_bits_of (acc_type bt bits s')) (acc_granule_of a (acc_type bt bits s'))
+              _ _ El (acc_bits_of_pos _) (acc_granule_of_pos _ _ Hin)) as [l' El'].
+  - (* fewer banks with the generator's accumulator type *)
+    unfold acc_type. destruct s, s'; try lia; try (specialize (Hs eq_refl); discriminate).
+    rewrite andb_false_r.
+    destruct ((bits =? 16) && negb (bt =? BT_Pooling)); cbn [andb]; [|lia].
+    change (acc_bits_of SHRAM_Acc40) with bits_Acc40. change (acc_bits_of SHRAM_Acc32) with bits_Acc32.
+    change (acc_granule_of a SHRAM_Acc40) with (ar_gran_acc40 a). change (acc_granule_of a SHRAM_Acc32) with (ar_gran_acc32 a).
+    unfold acc_bytes_of. apply Hag.
+    apply block_valid_inv in Hv. cbn [b_w b_h b_d] in Hv.
+    destruct (fit_block_nonneg a (b_h ofm) k {| b_w := bw; b_h := bh; b_d := bd |}) as [F1 [F2 F3]]; cbn [b_w b_h b_d]; try lia.
+    fold FB in F1, F2, F3. pose proof (round_up_nonneg (b_d FB) 8 ltac:(lia) F3). nia.
+  - rewrite El'. eexists. reflexivity.
+Qed.
+
+(* ... and on the one row that is not scaling agnostic the query offers a block that the generator rejects:
+   ethos-u55-128, 1x1 convolution, 16-bit IFM, 16x16x16 -> 16x16x16, quantization objects with scale_f32 = None
+   (API: scaled = True, generator: scaled = False), block 12x6x16 (h x w x d) *)
+Lemma offered_is_accepted_refuted_lemma :
+  exists a blk ofm ifm k cf,
+    nth_error arch_table 2 = Some a /\ nth_error arch_names 2 = Some "ethos-u55-128"%string /\ kernel_ok k /\
+    try_block_config a blk BT_ConvolutionMxN ofm ifm None false 16 false k 0 true RS_NONE = Some (Some cf) /\
+    try_block_config a blk BT_ConvolutionMxN ofm ifm None false 16 false k 0 false RS_NONE = Some None.
+Proof.
+  eexists _, {| b_w := 6; b_h := 12; b_d := 16 |}, {| b_w := 16; b_h := 16; b_d := 16 |},
+          {| b_w := 16; b_h := 16; b_d := 16 |}, {| k_w := 1; k_h := 1; k_sx := 1; k_sy := 1; k_dx := 1; k_dy := 1 |}, _.
+  split; [reflexivity|]. split; [reflexivity|]. split; [unfold kernel_ok; cbn; lia|].
+  split; vm_compute; reflexivity.
+Qed.
+
+(* ================= the fuel of the depth loop is never exhausted ================= *)
+Lemma depth_loop_more_fuel fuel x ss : forall depth st,
+  arch_wf (x_arch x) -> 0 < depth -> depth mod ar_ofm_ublock_d (x_arch x) = 0 ->
+  b_d ss - depth < Z.of_nat fuel ->
+  depth_loop (S fuel) x ss depth st = depth_loop fuel x ss depth st.
+Proof.
+  induction fuel as [|f IH]; intros depth st W Hd Hm Hf.
+  - cbn [depth_loop]. destruct (Z.leb_spec depth (b_d ss)); [lia|reflexivity].
+  - cbn [depth_loop] in *. destruct (Z.leb_spec depth (b_d ss)); [|reflexivity].
+    destruct (next_depth_ok (x_arch x) (sh_d (x_ofm x)) depth W Hd Hm) as [N1 N2].
+    apply IH; try assumption; lia.
+Qed.
+
+Lemma find_fuel_adequate_lemma a x ofm n st :
+  arch_wf a -> x_arch x = a ->
+  let ss := search_space a ofm in
+  depth_loop (Z.to_nat (b_d ss) + 1 + n) x ss (first_depth a (sh_d ofm) (b_d ss)) st =
+  depth_loop (Z.to_nat (b_d ss) + 1) x ss (first_depth a (sh_d ofm) (b_d ss)) st.
+Proof.
+  intros W Hx ss. destruct (first_depth_ok a (sh_d ofm) (b_d ss) W) as [F1 F2].
+  { unfold ss, search_space. cbn [b_d]. apply round_up_mod. exact (proj2 (proj2 (aw_ub _ W))). }
+  induction n as [|n IH]; [f_equal; lia|].
+  replace (Z.to_nat (b_d ss) + 1 + S n)%nat with (S (Z.to_nat (b_d ss) + 1 + n)) by lia.
+  rewrite depth_loop_more_fuel; [exact IH | rewrite Hx; exact W | exact F1 | rewrite Hx; exact F2 | lia].
+Qed.
+
+(* ================= the register validator ================= *)
+Lemma check_blockcfg_sound_lemma a blk bt ofm ifm ifm2 us bits pk k lut rs r_ib_end r_ib_start2 r_ab_start r_fmt has2 :
+  check_blockcfg a blk bt ofm ifm ifm2 us bits pk k lut rs r_ib_end r_ib_start2 r_ab_start r_fmt has2 = true ->
+  block_valid a blk = true /\
+  exists ig t fb ib l,
+    ifm_granule_of a (ew_usage bt us) bits = Some ig /\
+    (t = SHRAM_Acc40 /\ r_fmt = acc_format_Acc40 \/ t = SHRAM_Acc32 /\ r_fmt = acc_format_Acc32) /\
+    fb = fit_block_for_ofm a (b_h ofm) k {| b_w := b_w blk; b_h := b_h blk; b_d := b_d blk |} /\
+    ib_end l = r_ib_end /\ ab_start l = r_ab_start /\ (has2 = true -> ib_start2 l = r_ib_start2) /\
+    layout_okb (shram_of a) (ew_usage bt us) fb ib bits ig (acc_bits_of t) (acc_granule_of a t)
+      (Z.max lut (ar_reserved_end_banks a)) l = true.
+Proof.
+  unfold check_blockcfg. cbv zeta. rewrite !andb_true_iff. intros [[Hv Hf] H].
+  split; [exact Hv|].
+  match type of H with context [mk_ctx ?a ?b ?c ?d ?e ?f ?g ?h ?i ?j ?k] =>
+    destruct (mk_ctx a b c d e f g h i j k) as [x|] eqn:Ex; [|discriminate] end.
+  destruct (mk_ctx_inv _ _ _ _ _ _ _ _ _ _ _ _ Ex) as [Xa [Xo [Xi [Xb [Xk [Xe [Xg [_ [_ [Xl _]]]]]]]]]].
+  rewrite Xe, Xl in H.
+  eexists (x_ifm_granule x), _, _, _, _.
+  split; [exact Xg|]. split; [|split; [|split; [|split; [|split; [|exact H]]]]].
+  - apply orb_true_iff in Hf. destruct Hf as [Hf|Hf]; apply Z.eqb_eq in Hf; rewrite Hf.
+    + left. split; reflexivity.
+    + right. split; reflexivity.
+  - unfold cand_fit_block. rewrite Xa, Xo, Xk. reflexivity.
+  - reflexivity.
+  - reflexivity.
+  - intros ->. reflexivity.
+Qed.
+
+(* ================= non-vacuity: concrete instances of the hypotheses ================= *)
+Definition ex_kernel : kernel := {| k_w := 3; k_h := 3; k_sx := 1; k_sy := 1; k_dx := 1; k_dy := 1 |}.
+
+Example try_layout_example :
+  exists l, try_layout {| s_reserved_output_banks := 2; s_bank_size_bytes := 1024; s_total_banks := 24; s_reserved_end_banks := 2 |}
+              EW_No {| b_w := 8; b_h := 8; b_d := 16 |} {| b_w := 10; b_h := 10; b_d := 32 |} 8 4 32 8 2 = Some l /\
+            ib_end l = 10 /\ ab_start l = 14.
+Proof. eexists. split; [vm_compute; reflexivity|]. split; reflexivity. Qed.
+
+Example find_config_example :
+  exists a cf, nth_error arch_table 2 = Some a /\
+    find_block_config a BT_ConvolutionMxN {| sh_n := 1; sh_h := 12; sh_w := 12; sh_d := 40 |}
+      {| sh_n := 1; sh_h := 14; sh_w := 14; sh_d := 24 |} None false 8 ex_kernel 2 true RS_NONE = Some (Some cf) /\
+    c_ofm_block (cf_cfg cf) = {| b_w := 8; b_h := 8; b_d := 16 |}.
+Proof. eexists _, _. split; [reflexivity|]. split; vm_compute; reflexivity. Qed.
+
+Example offered_is_accepted_example :
+  exists a cf, nth_error arch_table 3 = Some a /\ scaling_agnostic a /\
+    try_block_config a {| b_w := 8; b_h := 8; b_d := 16 |} BT_ConvolutionMxN {| b_w := 16; b_h := 16; b_d := 16 |}
+      {| b_w := 16; b_h := 16; b_d := 16 |} None false 16 false ex_kernel 0 true RS_NONE = Some (Some cf).
+Proof.
+  eexists _, _. split; [reflexivity|]. split.
+  - pose proof scaling_agnostic_rows_lemma as H. unfold arch_table in H.
+    inversion H as [|? ? ? ? _ R1]. inversion R1 as [|? ? ? ? _ R2]. inversion R2 as [|? ? ? ? _ R3].
+    inversion R3 as [|? ? ? ? R4 _]. exact R4.
+  - vm_compute. reflexivity.
 Qed.
